@@ -934,7 +934,7 @@ def rule_r11(ctx) -> RuleResult:
     arguments, the failure of the first conversion skips the second, and a well-formed argument is silently replaced by its
     default.  Rule: in every registered parser function, a `try` with a fall-through ValueError handler converts at most one
     source value."""
-    rr = RuleResult("C18.R11", "a malformed numeric argument does not discard another argument's value", min_instances=3)
+    rr = RuleResult("C18.R11", "a malformed numeric argument does not discard another argument's value", min_instances=1)
     cg = CallGraph(ctx.index)
     conv = ("int", "float", "Decimal", "safe_int", "safe_float")
 
